@@ -106,6 +106,22 @@ theorem taint_sound_of_flags (G : LGraph) (src : Nat) (tr : List Nat) (s : State
   simp only [flowsOf, List.mem_map, List.mem_filter]
   exact ⟨w, ⟨hw, hrep⟩, hnode⟩
 
+/-- a finished run that satisfies `EntryBeforeExit` reports at least what ANY other traversal order
+    reports (used by C06: two runs that both satisfy it report the same sinks) -/
+theorem flows_maximal_of_ebe (G : LGraph) (src : Nat) (tr : List Nat) (s₁ s₂ : State Item Key)
+    (h₁ : FinishedRun G src tr s₁) (hEBE : entryBeforeExit G src tr s₁ = true)
+    (h₂ : Steps key (succ G src) ⟨[root src tr], [], []⟩ s₂) :
+    ∀ n ∈ flowsOf G s₂, n ∈ flowsOf G s₁ := by
+  intro n hn
+  obtain ⟨a, hpath, rfl, hrep⟩ := flows_are_paths G src tr s₂ h₂ n hn
+  exact taint_sound_partial G src tr s₁ h₁ hEBE a hpath hrep
+
+theorem flows_order_independent (G : LGraph) (src : Nat) (tr : List Nat) (s₁ s₂ : State Item Key)
+    (h₁ : FinishedRun G src tr s₁) (e₁ : entryBeforeExit G src tr s₁ = true)
+    (h₂ : FinishedRun G src tr s₂) (e₂ : entryBeforeExit G src tr s₂ = true) :
+    ∀ n, n ∈ flowsOf G s₁ ↔ n ∈ flowsOf G s₂ :=
+  fun n => ⟨flows_maximal_of_ebe G src tr s₂ s₁ h₂ e₂ h₁.1 n, flows_maximal_of_ebe G src tr s₁ s₂ h₁ e₁ h₂.1 n⟩
+
 /-! ### Negation witnesses (closed counterexamples in the model, replayed on the real tool) -/
 
 namespace F1
